@@ -39,7 +39,7 @@ for name in sorted(os.listdir(root)):
         checks = {}
         for c in (ALL if all_checks else [prop]):
             r = subprocess.run([os.path.join(VERIF, "check"), c, "--tier", "quick"],
-                               env=dict(os.environ, VERIF_REPO=d), cwd=VERIF,
+                               env=dict(os.environ, VERIF_REPO=d, VERIF_FAILFAST="20"), cwd=VERIF,
                                capture_output=True, text=True)
             kinds = sorted({ln.split('"kind": "')[1].split('"')[0]
                             for ln in r.stdout.split("\n")
